@@ -590,9 +590,23 @@ def evaluate(ctx, exe, mexe, cases, stats, structural=True):
                             "".join("%d : %s\n" % (q, " ".join(str(j) for j in cs)) for q, cs in cq))
                 plan.append(("K", k, cq))
         if p["CT"] is not None and exact:
-            kk = c["ks"][len(c["ks"]) // 2]
-            text.append("CT %d %d\n" % (kk + 1, len(p["CT"])) + "".join(l + "\n" for l in p["CT"]))
-            plan.append(("CT", kk, p["Q"].get(kk + 1)))
+            ctl = []
+            try:
+                for l in p["CT"]:
+                    w = l.split()
+                    md, pd = float.fromhex(w[2]), float.fromhex(w[3])
+                    if w[0] != "t" or md != int(md) or pd != int(pd) or int(w[5]) != int(w[6]) or int(w[4]) < 0:
+                        raise ValueError(l)
+                    ctl.append("t %d %d %d %d %d\n" % (int(w[1]), int(md), int(pd), int(w[4]), int(w[5])))
+            except (ValueError, IndexError, OverflowError) as ex:
+                ctl = None
+                ctx.mismatch({"gen": c["gen"], "N": n, "kind": c["kind"], "M": c.get("M"), "X": c.get("X")},
+                             "cover-tree dump has a node whose max_dist / parent_dist is not an integer distance, "
+                             "a negative scale or num_children != children.size(): %s" % str(ex)[:120])
+            if ctl is not None:
+                for kk in c["ks"]:
+                    text.append("CT %d %d\n" % (kk + 1, len(ctl)) + "".join(ctl))
+                    plan.append(("CT", kk, p["Q"].get(kk + 1)))
         text.append("END\n")
         out = run_model(ctx, mexe, "".join(text))
         pos = 0
@@ -771,7 +785,7 @@ def run(ctx):
         if c["ks"]:
             cases.append(c)
     quick = ctx.quick
-    ngen = 260 if quick else 2500
+    ngen = 1200 if quick else 6000
     nmax = 60 if quick else 120
     # exhaustive tiny part: every multiset of <= 5 points on {0,1,2} (line with multiplicities), all k
     tiny = []
